@@ -3,7 +3,7 @@
 (* C04: the program store is a last-writer-wins map, listed and run in     *)
 (* line order.  Alphabet: line numbers 0, 00, 7, 007, 10 and the u64       *)
 (* extremes (…614, …615, and …616 which is not a line number) x bodies     *)
-(* {PRINT k, empty, untokenizable, REM}; plus LIST and RUN.  `shadow` is   *)
+(* {PRINT k, empty, blanks only, untokenizable, REM}; plus LIST and RUN.  `shadow` is   *)
 (* the map the property statement describes, maintained independently of   *)
 (* Step from the history of submitted lines.                               *)
 (***************************************************************************)
@@ -11,7 +11,7 @@ EXTENDS MC_Session
 
 Numbers == { B("0"), B("00"), B("7"), B("007"), B("10"), B("18446744073709551614"),
              B("18446744073709551615"), B("18446744073709551616") }
-Bodies == { B(" PRINT 1"), B(" PRINT 2"), B(""), B(" %"), B(" REM x") }
+Bodies == { B(" PRINT 1"), B(" PRINT 2"), B(""), B(" %"), B(" REM x"), B("  "), <<9>> }     \* a number followed only by blanks deletes, too
 EditLines == {n \o b : n \in Numbers, b \in Bodies}
 LinesDef == EditLines \cup {B("LIST"), B("RUN")}
 
@@ -29,5 +29,8 @@ ShadowOf(h) ==
                       ELSE IF lx.toks = <<>> THEN Drop(prev, pl.key)
                       ELSE Put(prev, pl.key, lx.toks)
 
+\* the shadow is computed from the (hidden) history, so it is part of the view: two paths to the
+\* same interpreter state with different shadows are two states, and both are checked
+C04View == <<it, last, used, ShadowOf(hist)>>
 LastWriterWins == it.prog = ShadowOf(hist) /\ it.keys = SortKeys(DOMAIN it.prog)
 =============================================================================
